@@ -1,7 +1,7 @@
 """Common driver for the three checks that share the alignment sweep (C01, C02, C07)."""
 import json
 
-from .. import alignsweep, common, refalign
+from .. import alignsweep, common, histsweep, refalign
 
 
 def selfcheck_reference():
@@ -37,6 +37,19 @@ def run(prop, tier, rule, nontrivial_key, assumptions):
                 R.sample(dict(s, family=d["fam"]))
         for sig, what, case in r["viol"]:
             R.violation(sig, what, case)
+    # family H: operation sequences of depth 2 on one long-lived adapter object (every ordered pair of reads consecutively)
+    histsweep.selfcheck()
+    hsh = histsweep.shards(tier, prop) if prop != "C02" else []  # same oracle as in C01: not repeated for C02
+    hout = common.pmap(histsweep.MOD, "run_shard", hsh)
+    hev = 0
+    for d, r in zip(hsh, hout):
+        hev += r["evals"]
+        tot["history_pairs"] = tot.get("history_pairs", 0) + r["pairs"]
+        tot["history_configs"] = tot.get("history_configs", 0) + r["configs"]
+        for sig, what, case in r["viol"]:
+            R.violation(sig, what, case)
+    tot["evals"] = tot.get("evals", 0) + hev
+    fam["H(history)"] = hev
     # family I: matches reported THROUGH THE ADAPTER INDEX (several anchored adapters) - the same obligations apply to them
     if prop in ("C01", "C02"):
         from . import c08
@@ -65,7 +78,9 @@ def run(prop, tier, rule, nontrivial_key, assumptions):
                     extra=dict(families="A: canonical ACGT adapters x all reads over ACGT; Asym: non-canonical adapters "
                                         "(validates the letter symmetry used in A); B: adapters over ACNR x reads over ACGNa x 4 "
                                         "wildcard switch settings; C: 6 adapters of 12-21 nt + one 70 nt x every read within the "
-                                        "stated edit depth of every prefix/suffix/whole adapter with junk flanks"))
+                                        "stated edit depth of every prefix/suffix/whole adapter with junk flanks; H: every ORDERED PAIR of reads "
+                                        "(all reads over ACGT up to length 4 (5) + long reads) as two consecutive calls on one adapter object, "
+                                        "answer compared with a second object's standalone answer"))
 
 
 def cli_configured_parameters():
@@ -123,6 +138,8 @@ def replay(prop, path):
         v = json.load(f)
     print(json.dumps(v, indent=1))
     c = v["case"]
+    if c.get("history"):
+        return histsweep.replay(prop, c)
     cls, kw, ptype = alignsweep.classes()[c["type"]]
     from cutadapt.adapters import MockKmerFinder
 
